@@ -714,7 +714,13 @@ def eval_and_compare(ctx, name, terms, checks):
         ctx.notes.append('model did not build: implementation-only predicates were evaluated')
         return
     try:
-        vals = common.coq_eval(name, IMPORTS, terms, timeout=900)
+        # slices evaluated concurrently (coq_eval itself only parallelises above 400 terms)
+        import concurrent.futures
+        step = 48 if len(terms) <= 800 else 200
+        slices = [(i, terms[i:i + step]) for i in range(0, len(terms), step)]
+        with concurrent.futures.ThreadPoolExecutor(max_workers=8) as ex:
+            parts = list(ex.map(lambda t: common.coq_eval(f'{name}_{t[0]}', IMPORTS, t[1], timeout=900), slices))
+        vals = [v for part in parts for v in part]
         compare(ctx, checks, vals)
     except RuntimeError as ex:
         ctx.broken.append({'kind': 'model-eval', 'error': str(ex)[:1500]})
